@@ -289,7 +289,7 @@ PROPS = {
     "C17": dict(
         level="other",
         technique="Kani contract harnesses: UniqueSortedVec invariant (From<Vec>, union), schedule_at range guard",
-        level_text="Partial and bounded; only two clauses are decided. 'Sorted, free of duplicates': comment sets are UniqueSortedVec values whose only constructors are From<Vec> (used by the parser) and union (used by Schedule); both are proved to yield strictly increasing, duplicate-free vectors holding exactly the input elements (bounded lengths, instance u8, shared with C20). 'Empty outside the supported date range': schedule_at returns the empty schedule - no ranges, hence no comments - for every date outside 1900..9999 (expression without rules). Which rule's comments a period carries (Schedule::from_ranges / insert / iteration with real Arc<str> sets, the interval iterator) is not decided: every such harness exceeded 24 GB in CBMC.",
+        level_text="Partial and bounded; only two clauses are decided. 'Sorted, free of duplicates': comment sets are UniqueSortedVec values whose only constructors are From<Vec> (used by the parser) and union (used by Schedule); both are proved to yield strictly increasing, duplicate-free vectors holding exactly the input elements (bounded lengths, instance u8, shared with C20; in C17's quick command From<Vec> <= 3 and union at (1,1),(0,2),(2,0), the longer union operands in its thorough command and in C20's quick command). 'Empty outside the supported date range': schedule_at returns the empty schedule - no ranges, hence no comments - for every date outside 1900..9999 (expression without rules). Which rule's comments a period carries (Schedule::from_ranges / insert / iteration with real Arc<str> sets, the interval iterator) is not decided: every such harness exceeded 24 GB in CBMC.",
         level_note="The invariant is proved on the u8 instance of the generic code (the comparison is the only type-specific operation). Harnesses with real Arc<str> comments are kept in kani/oh/verif_schedule.rs with tier=off and the measured reason. Neither of the two seeded C17 changes is caught by this check.",
         explanation="PARTIAL (2 of 5 clauses) and BOUNDED.",
         undecided_clauses=[
